@@ -15,13 +15,19 @@ Pipeline
         subcommand parsers): namespace before and after the real call (captured by wrapping the
         static method for the duration of the call) vs the model's `applyParsingLinks`;
      K4 `strip_link_target_keys` on a clone of every parsed configuration vs the model;
+     H  HISTORIES on one real parser (link_arguments calls and parses interleaved, 3-6 parses through any entry point, sources
+        typed Union[int, float] / Union[bool, int] / Any taking ==-equal values of different types, a compute function whose
+        outside state changes between the parses, optionally a default config file): every link report, every parser state
+        and every parse outcome vs the model's `runOps` on the whole op sequence;
      T1-T4 parsers with subcommands as a parser TREE in the model: registrations at every level (parent
         links, a second subcommand), the parent's apply_parsing_links call with its early returns in
         source order and its recursion (also the calls made while links are switched off), the
         recursive strip, and whole parse_args runs where the token selects the subcommand;
  (3) oracle on the real code, independent of the model: after every successful parse
-     cfg[target] == compute_fn(*[cfg[s] for s in sources]) recomputed by the harness (every item of a
-     list of classes), the target is not in required_args and a parse that does not supply it
+     cfg[target] == compute_fn(*[cfg[s] for s in sources]) recomputed by the harness, value for value and type for type at
+     every depth (every item of a list of classes; after EVERY parse of a history and after re-parsing its dump; nested link
+     sets in both registration orders: excused by the open finding only when the set is not ordered AND the link's value is
+     a snapshot), the target is not in required_args and a parse that does not supply it
      succeeds, the option of a plain target raises ArgumentError, the target is absent from the yaml
      and json dump (and from saved files), parse_string(dump(cfg)) == cfg; chains (a target among
      the link's own sources included) and double targets raise ValueError at link_arguments time;
@@ -42,19 +48,27 @@ from ..lib.common import Ctx, MachineryError, repo_python_path
 
 MANIFEST = {
     "engine": "Links",
-    "technique": "Lean 4 proof over a transcription of ActionLink (addLink with _initial_input_checks, apply_parsing_links, set_target_value, "
-                 "strip_link_target_keys) on the Namespace model of C11 + differential correspondence on real parsers (link registration, whole "
-                 "parses, apply_parsing_links and strip_link_target_keys in isolation)",
+    "technique": "Lean 4 proof over a transcription of ActionLink (addLink with _initial_input_checks, apply_parsing_links, call_compute_fn, "
+                 "set_target_value, strip_link_target_keys) on the Namespace model of C11, including HISTORIES of one parser object (link_arguments "
+                 "calls and parses interleaved, the world seen by the compute functions changing between parses) + statement-level ties on the "
+                 "seven transcribed functions (Gen/LinksSrc) + differential correspondence on real parsers (link registration, whole parses, whole "
+                 "histories, apply_parsing_links and strip_link_target_keys in isolation)",
     "text": "Theorems in lean/Jap/Props/C15.lean prove, for every compute-function table, every sequence of link_arguments calls accepted by the model "
             "of ActionLink.__init__ and every list of assignments reaching the parser through any channel: accepted link sets have no double target and "
-            "no target that is a source of any link, its own included; when no target is nested in a source or another target (the open finding: a "
-            "target lying inside a group-valued source) every successfully parsed configuration has "
-            "target = F(sources) whatever was supplied for the target, one pass is a fixed point and the order of application is irrelevant, the "
-            "target is not required, the option of a plain target is rejected, stripped configurations do not hold the target (refuted for items of a "
-            "list of classes: open finding 15c) and re-parsing the stripped configuration restores it.",
+            "no target that is a source of any link, its own included; when the link set is ORDERED (no link writes into its own sources, no link "
+            "registered later writes into / above a source or the target of an earlier one -- implied by 'no nested keys'; the remaining class is the "
+            "open finding about a target lying inside a group-valued source registered first) every successfully parsed configuration has "
+            "target = F(final sources) whatever was supplied for the target; this holds after EVERY parse of EVERY history on one parser object "
+            "(refused calls and parses leave no trace in the parser; the outcome of a parse does not depend on earlier parses; the target is a "
+            "function of the sources' values -- value for value and type for type -- and of nothing else); without nested keys one pass is a fixed "
+            "point and the order of application is irrelevant; the target is not required, every option string of a plain target is rejected, "
+            "stripped configurations do not hold the target (refuted for items of a list of classes: open finding 15c) and re-parsing the stripped "
+            "configuration restores it.",
     "level_note": "Trusted: Lean kernel; axioms propext/Quot.sound/Classical.choice only; the correspondence harness. Parameters of the model (not "
-                  "modelled): the compute functions, type checks of values, the merge of the channels into one namespace (C04/C05), loading and "
-                  "serialisation of the dump text (C01), links applied on instantiation (C16).",
+                  "modelled): the compute functions (a table indexed by the state of the world at the time of the parse), type checks of values, the "
+                  "merge of the channels into one namespace (C04/C05), loading and serialisation of the dump text (C01), links applied on "
+                  "instantiation (C16). Outside the model, checked by the oracle only: object identity (a link without function stores the source's "
+                  "Namespace object itself, which is what keeps target == source when a later link writes into that source).",
 }
 
 F_LIST = "C15-list-item-target-in-dump"
@@ -169,6 +183,23 @@ def f_kind_d(g: Dict[str, Any]):
 
 def f_pair(a, b):
     return 10 * a + b
+
+
+# --- functions that tell ==-equal arguments of different types apart (1 / 1.0 / True), and one that is not pure
+EPOCH = 0
+
+
+def f_tagged(*a):
+    return [[type(x).__name__, x] for x in a]
+
+
+def f_tyname(x):
+    return type(x).__name__
+
+
+def f_epoch(x):
+    """reads state outside its arguments (stands for a file named by the source, a registry, ...)"""
+    return x + EPOCH
 '''
 
 _MOD = {}
@@ -208,6 +239,9 @@ def fn_table():
         "kind": (m.f_kind, 10, None, 1),
         "kind_d": (m.f_kind_d, 10, [True], 1),
         "pair": (m.f_pair, 11, None, 2),
+        "tagged": (m.f_tagged, 12, None, None),
+        "tyname": (m.f_tyname, 13, None, 1),
+        "epoch": (m.f_epoch, 14, None, 1),
     }
 
 
@@ -228,6 +262,8 @@ def enc(v):
         return v
     if isinstance(v, str):
         return {"d": [["$s", _codes(v)]]}
+    if isinstance(v, float):
+        return {"d": [["$f", _codes(repr(v))]]}
     if isinstance(v, Namespace):
         return {"n": [[k, enc(x)] for k, x in vars(v).items()]}
     if isinstance(v, dict):
@@ -276,10 +312,18 @@ def build_parser(spec, top=True):
     kw = {"exit_on_error": False}
     if top:
         kw.update(default_env=bool(spec.get("default_env")), env_prefix=ENV_PREFIX)
+    if top and spec.get("default_config") is not None:     # a default config file: links are applied to the defaults AND to the result
+        _MOD["n"] = _MOD.get("n", 0) + 1
+        dpath = os.path.join(_MOD["dir"], "dflt%d.json" % _MOD["n"])
+        with open(dpath, "w") as f:
+            f.write(json.dumps(spec["default_config"]))
+        kw["default_config_files"] = [dpath]
     p = ArgumentParser(**kw)
     if top:
         p.add_argument("--cfg", action="config")
-    types = {"int": int, "str": str, "any": Any, "dict": Dict[str, int]}
+    from typing import Union as _U
+
+    types = {"int": int, "str": str, "any": Any, "dict": Dict[str, int], "num": _U[int, float], "bi": _U[bool, int]}
     for a in spec.get("args", []):
         if a["type"] == "flag":     # --name / --no_name
             from jsonargparse import ActionYesNo
@@ -482,6 +526,13 @@ def do_parse(p, case, tmpdir=None):
 
 def run_real(case):
     """everything observed on the real code for one case"""
+    if case["entry"] == "history":
+        h = run_history(case)
+        _HIST_FAILS[json.dumps(case, sort_keys=True)] = h["fails"]      # the oracle ran with the history: `judge` takes the result from here
+        h["res"] = ("ok", None) if any("res" in s and s["res"][0] == "ok" for s in h["steps"]) else ("err", "invalid", "")
+        h["links"] = [s["link"] for s in h["steps"] if "link" in s]
+        h["records"] = []
+        return h
     spec = case["spec"]
     p, lp, rep, rep_top = assemble(spec)
     env = case.get("env", {}) if case["entry"] != "env" else {}
@@ -494,6 +545,21 @@ def run_real(case):
 def nested(k1, k2):
     """k1 and k2 are different keys and one is a dotted prefix of the other"""
     return k1 != k2 and (k1.startswith(k2 + ".") or k2.startswith(k1 + "."))
+
+
+def fwd_ok(links):
+    """the order-aware guard of `C15_invariant_ordered` (Lean: `fwdOK`): no link writes into its own sources and no link
+    registered later writes into / above the target or the sources of a link registered earlier"""
+    def div(k1, k2):
+        return k1 != k2 and not nested(k1, k2)
+
+    for i, l in enumerate(links):
+        if not all(div(l["target"], s) for s in l["sources"]):
+            return False
+        for o in links[i + 1:]:
+            if not div(o["target"], l["target"]) or not all(div(o["target"], s) for s in l["sources"]):
+                return False
+    return True
 
 
 def accepted_links(spec, rep):
@@ -563,6 +629,40 @@ def coerce_flags(l, spec):
         return [fl[i] if i < len(fl) else False for i in range(len(l["sources"]))]
     ttype = next((a["type"] for a in link_spec(spec).get("args", []) if a["name"] == l["target"]), None)
     return [ttype == "dict"]
+
+
+def same_exact(a, b):
+    """value for value AND type for type, at every depth (1, 1.0 and True are three different values)"""
+    from jsonargparse import Namespace
+
+    if type(a) is not type(b):
+        return False
+    if isinstance(a, (list, tuple)):
+        return len(a) == len(b) and all(same_exact(x, y) for x, y in zip(a, b))
+    if isinstance(a, Namespace):
+        return same_exact(vars(a), vars(b))
+    if isinstance(a, dict):
+        return set(a) == set(b) and all(same_exact(a[k], b[k]) for k in a)
+    return a == b
+
+
+def shared_identity(l, links, spec, root):
+    """A link without compute function and without dict coercion whose source holds a Namespace stores that very OBJECT
+    at the target (`cfg[target_key] = value`): whatever a link applied later writes INTO the source (or into the target) is
+    seen through both keys, so target == source cannot be lost -- unless a link applied later rebinds the source, the
+    target or a key above them.  For these links a nested link set is no excuse (the open finding does not cover them)."""
+    from jsonargparse import Namespace
+
+    if l.get("fn") or len(l["sources"]) != 1 or any(coerce_flags(l, spec)):
+        return False
+    s0 = l["sources"][0]
+    if s0 not in root or not isinstance(root[s0], Namespace):
+        return False
+    idx = next((i for i, o in enumerate(links) if o is l), len(links))
+    for o in links[idx + 1:]:
+        if any(k == o["target"] or k.startswith(o["target"] + ".") for k in (s0, l["target"])):
+            return False
+    return True
 
 
 def recompute(l, spec, root):
@@ -639,6 +739,10 @@ def oracle(case, deep=True):
     import yaml
     from jsonargparse import ArgumentError
 
+    if case["entry"] == "history":
+        if json.dumps(case, sort_keys=True) in _HIST_FAILS:
+            return _HIST_FAILS.pop(json.dumps(case, sort_keys=True))
+        return run_history(case)["fails"]
     fails = []
 
     def fail(what, finding=None):
@@ -686,8 +790,9 @@ def oracle(case, deep=True):
             cfg = res[1]
             root = sub_root(spec, cfg)
             # --- the invariant
+            ordered = fwd_ok(links)      # nested keys, but every write comes before the reads it affects: no excuse
             for l in links if root is not None else []:
-                attr = link_attribution(l, links)
+                attr = None if ordered or shared_identity(l, links, lspec, root) else link_attribution(l, links)
                 rc = recompute(l, spec, root)
                 if rc is None:
                     continue
@@ -697,7 +802,7 @@ def oracle(case, deep=True):
                     fail("plain link target %s is not set after a successful parse" % l["target"], attr)
                 else:
                     for got in rc[2]:
-                        if not (got == rc[1] and type(got) is type(rc[1])):
+                        if not same_exact(got, rc[1]):
                             fail("cfg[%s] = %r but compute_fn(%s) = %r" % (l["target"], got, ", ".join(l["sources"]), rc[1]), attr)
                             break
             # --- the links of the parent parser of a subcommand (same invariant, one level up)
@@ -705,7 +810,7 @@ def oracle(case, deep=True):
                 rc = recompute(l, topview, cfg)
                 if rc is None:
                     continue
-                if rc[0] != "value" or any(not (g == rc[1] and type(g) is type(rc[1])) for g in rc[2]):
+                if rc[0] != "value" or any(not same_exact(g, rc[1]) for g in rc[2]):
                     fail("parent parser: cfg[%s] = %r but compute_fn(%s) gives %r" % (l["target"], rc[2], ", ".join(l["sources"]), rc[1]),
                          link_attribution(l, top_prev))
             # --- the configuration returned has been validated WITH the link targets in place
@@ -713,9 +818,9 @@ def oracle(case, deep=True):
                 p.validate(cfg)
             except Exception as ex:  # noqa: BLE001
                 fail("parse returned a configuration that does not validate (%s: %s)" % (exc_class(ex), str(ex)[:160]),
-                     set_attribution(links))
+                     None if ordered else set_attribution(links))
             # --- dumps
-            set_attr = set_attribution(links)
+            set_attr = None if ordered else set_attribution(links)
             text = None
             for fmt in ("yaml", "json"):
                 try:
@@ -1264,6 +1369,265 @@ def gen_case(rng, spec):
     return case
 
 
+# ---------------------------------------------------------------- nested link sets (a target inside another link's source)
+def gen_nested_case(rng):
+    """a link whose source is a WHOLE namespace (a group, a class spec) next to links whose targets lie INSIDE that source,
+    in both registration orders, with and without compute function / dict coercion.  What the code guarantees there:
+    a link without function stores the source object itself, so it holds in either order; a computed / coerced value is
+    a snapshot, right only when the inner link is registered first (else: open finding C15-nested-chain)."""
+    m = gen_module()
+    mod = m.__name__
+    if rng.random() < 0.6:
+        g = rng.choice(["g", "dc", "h"])
+        f1, f2 = GROUPS[g][2]
+        spec = {"default_env": rng.random() < 0.3, "groups": [g], "subclass": [], "subclass_list": [],
+                "args": [{"name": "a", "type": "int", "default": rng.randint(0, 9)}, {"name": "b", "type": "int", "default": 0},
+                         {"name": "c", "type": "int", "default": rng.randint(0, 9)}, {"name": "w", "type": "any", "default": None},
+                         {"name": "raw", "type": "untyped", "default": None}, {"name": "m", "type": "dict", "default": {}}], "links": []}
+        whole = [{"sources": [g], "target": t, "fn": None, "single_str": rng.random() < 0.5} for t in rng.sample(["w", "raw"], rng.randint(1, 2))]
+        r = rng.random()
+        if r < 0.25:
+            whole.append({"sources": [g], "target": "b", "fn": rng.choice(["gsum", "gsum_d", "kind"]), "single_str": True})
+        elif r < 0.4:
+            whole.append({"sources": [g], "target": "m", "fn": None, "single_str": True})
+        inner = [{"sources": ["a"], "target": "%s.%s" % (g, f1), "fn": rng.choice([None, "double", "id"]), "single_str": rng.random() < 0.5}]
+        if rng.random() < 0.4:
+            inner.append({"sources": ["a", "c"], "target": "%s.%s" % (g, f2), "fn": "sum"})
+        order = rng.choice(["whole-first", "inner-first", "mixed"])
+        links = whole + inner if order == "whole-first" else inner + whole if order == "inner-first" else rng.sample(whole + inner, len(whole + inner))
+        spec["links"] = links
+        vals = {k: rng.randint(10, 60) for k in ("a", "c", "%s.%s" % (g, f1), "%s.%s" % (g, f2)) if rng.random() < 0.6}
+        if rng.random() < 0.3:
+            vals["w"] = {"old": 1}
+        entry = rng.choice(["args", "string", "object", "env"] if spec["default_env"] else ["args", "string", "object"])
+        case = {"spec": spec, "entry": entry, "nested_order": order}
+        if entry == "args":
+            incfg = {k: v for k, v in vals.items() if k in ("w",) or rng.random() < 0.3}
+            case["argv"] = (["--cfg=" + json.dumps(_nest(incfg))] if incfg else []) + ["--%s=%d" % (k, v) for k, v in vals.items() if k not in incfg]
+        elif entry == "env":
+            case["env"] = {env_name(k): str(v) for k, v in vals.items() if k != "w"}
+        else:
+            case["config"] = _nest(vals)
+        return case
+
+    def cspec():
+        cls = rng.choice(["SubA", "SubB", "SubK"])
+        init = {"k": rng.randint(0, 9)}
+        if cls == "SubA" or rng.random() < 0.6:
+            init["dim"] = rng.randint(10, 20)
+        return {"class_path": "%s.%s" % (mod, cls), "init_args": init}
+
+    spec = {"default_env": False, "groups": [], "subclass_list": [], "args": [{"name": "a", "type": "int", "default": rng.randint(1, 9)}],
+            "subclass": [{"name": "opt"}, {"name": "opt2"}, {"name": "holder", "cls": "Holder"}], "links": []}
+    whole = [{"sources": ["opt"], "target": t, "fn": None, "single_str": rng.random() < 0.5}
+             for t in rng.sample(["opt2", "holder.init_args.c"], rng.randint(1, 2))]
+    inner = [{"sources": ["a"], "target": "opt.init_args." + rng.choice(["k", "dim"]), "fn": rng.choice([None, "double"]), "single_str": True}]
+    order = rng.choice(["whole-first", "inner-first"])
+    spec["links"] = whole + inner if order == "whole-first" else inner + whole
+    values = {"opt": cspec(), "a": rng.randint(20, 40)}
+    if rng.random() < 0.8:
+        values["holder"] = {"class_path": "%s.Holder" % mod, "init_args": {"v": rng.randint(0, 5)}}
+    entry = rng.choice(["args", "string", "object"])
+    case = {"spec": spec, "entry": entry, "nested_order": order}
+    if entry == "args":
+        case["argv"] = ["--%s=%s" % (k, json.dumps(v)) for k, v in values.items()]
+    else:
+        case["config"] = values
+    return case
+
+
+def _nest(flat):
+    d = {}
+    for k, v in flat.items():
+        set_in(d, k, v)
+    return d
+
+
+# ---------------------------------------------------------------- histories: one parser, several parses, links added in between
+NUM_POOL = [1, 1.0, 0, 0.0, 2, 2.0]
+BI_POOL = [True, 1, False, 0, 2]
+ANY_POOL = [1, 1.0, True, 0, 0.0, False, [1], [1.0], [True], "x1", {"k": 1}, {"k": 1.0}]
+HIST_TYPES = {"n1": "num", "n2": "num", "bi": "bi", "w": "any", "z": "any", "a": "int", "c": "int", "s": "str"}
+HIST_DEFAULTS = {"n1": 2, "n2": 1, "bi": 10, "w": None, "z": None, "a": 1, "c": 0, "s": "x", "x1": None, "x2": None, "t1": "unset", "b": 0, "d": 0}
+
+
+def hist_value(rng, ty):
+    if ty == "num":
+        return rng.choice(NUM_POOL)
+    if ty == "bi":
+        return rng.choice(BI_POOL)
+    if ty == "any":
+        return rng.choice(ANY_POOL)
+    if ty == "int":
+        return rng.randint(0, 2)
+    return rng.choice(["x", "y"])
+
+
+def gen_history_case(rng):
+    """ONE parser used for a history: link_arguments calls and parses interleaved.  Sources typed Union[int, float],
+    Union[bool, int] and Any take values that are `==` across types (1 / 1.0 / True, 0 / 0.0 / False, [1] / [1.0]) from small
+    pools, so that consecutive parses often see equal-but-different source values; the compute functions tell them apart
+    (`tagged`, `tyname`, `tuple`, `list`, identity) or read state that changes between the parses (`epoch`).  Optionally
+    the parser has a default config file (the links are then applied twice within one parse)."""
+    spec = {"default_env": rng.random() < 0.4, "groups": [], "subclass": [], "subclass_list": [], "links": [],
+            "args": [{"name": k, "type": ty, "default": HIST_DEFAULTS[k]} for k, ty in HIST_TYPES.items()] +
+                    [{"name": "x1", "type": "any", "default": None}, {"name": "x2", "type": "any", "default": None},
+                     {"name": "t1", "type": "str", "default": "unset"}, {"name": "b", "type": "int", "default": 0},
+                     {"name": "d", "type": "int", "default": 0}]}
+    pool = [
+        {"sources": rng.sample(["n1", "bi", "w"], rng.randint(1, 3)), "target": "x1", "fn": rng.choice(["tagged", "tuple", "list"])},
+        {"sources": [rng.choice(["w", "z", "n2"])], "target": "x2", "fn": rng.choice(["tagged", "id", None, "tuple"]), "single_str": True},
+        {"sources": [rng.choice(["n1", "bi", "z"])], "target": "t1", "fn": "tyname", "single_str": rng.random() < 0.5},
+        {"sources": ["a"], "target": "b", "fn": "epoch", "single_str": True},
+        {"sources": ["a", "c"], "target": "d", "fn": rng.choice(["sum", "pair"])},
+    ]
+    links = rng.sample(pool, rng.randint(2, 4))
+    if rng.random() < 0.25:     # a request that must be refused, somewhere in the history
+        o = rng.choice(links)
+        links.append(rng.choice([{"sources": [o["target"]], "target": "c", "fn": None, "single_str": True},
+                                 {"sources": ["a"], "target": o["target"], "fn": None, "single_str": True}]))
+    n_first = rng.randint(1, len(links))
+    if rng.random() < 0.35:
+        dc = {k: hist_value(rng, ty) for k, ty in HIST_TYPES.items() if rng.random() < 0.5}
+        spec["default_config"] = dc
+    history = [{"link": l} for l in links[:n_first]]
+    rest = links[n_first:]
+    epoch = 0
+    prev = None
+    for _ in range(rng.randint(3, 6)):
+        if rest and rng.random() < 0.5:
+            history.append({"link": rest.pop(0)})
+        if rng.random() < 0.4:
+            epoch = rng.randint(0, 3)
+        entry = rng.choice(["args", "args", "string", "object", "path"] + (["env"] if spec["default_env"] else []))
+        if prev is not None and rng.random() < 0.3:     # the previous values again, some of them as another type
+            vals = {k: _retype(rng, HIST_TYPES[k], v) for k, v in prev.items()}
+        else:
+            vals = {k: hist_value(rng, ty) for k, ty in HIST_TYPES.items() if rng.random() < 0.55}
+        prev = vals
+        step = {"entry": entry, "epoch": epoch}
+        chan = {"args": "argv", "env": "env", "object": "object"}.get(entry, "config")
+        if entry == "args":
+            step["argv"] = ["--%s=%s" % (k, v if isinstance(v, str) else json.dumps(v)) for k, v in vals.items()]
+        elif entry == "env":
+            step["env"] = {env_name(k): v if isinstance(v, str) else json.dumps(v) for k, v in vals.items()}
+        else:
+            step["config"] = dict(vals)
+            if rng.random() < 0.3:      # a value supplied for a target
+                step["config"]["x1"] = "supplied"
+        step["feed"] = [[chan, k, v] for k, v in vals.items()] + ([[chan, "x1", "supplied"]] if "x1" in step.get("config", {}) else [])
+        history.append(step)
+    return {"spec": spec, "entry": "history", "history": history}
+
+
+def _retype(rng, ty, v):
+    """a value of the argument's type that is `==` to `v` (often of another Python type)"""
+    pool = {"num": NUM_POOL, "bi": BI_POOL, "any": ANY_POOL}.get(ty)
+    if pool is None or isinstance(v, (str, dict)) or v is None:
+        return v
+    return rng.choice([x for x in pool if x == v and not isinstance(x, (str, dict)) and x is not None] or [v])
+
+
+_HIST_FAILS = {}
+
+
+def set_epoch(n):
+    gen_module().EPOCH = n
+
+
+def run_history(case, with_oracle=True):
+    """the history on ONE real parser: per step the link report / the parse result (+ parser state for K1), and the
+    property evaluated after every successful parse"""
+    from jsonargparse import ArgumentError
+
+    spec = case["spec"]
+    p, _ = build_parser(spec)
+    fails, steps, accepted = [], [], []
+
+    def fail(what, finding=None):
+        fails.append({"what": what, "finding": finding})
+
+    for i, st in enumerate(case["history"]):
+        if "link" in st:
+            l = st["link"]
+            why = should_reject(l, accepted)
+            r = add_links(p, [l])[0]
+            if r["ok"]:
+                if why:
+                    fail("step %d: link_arguments(%s -> %s) accepted although: %s" % (i, l["sources"], l["target"], ", ".join(why)))
+                accepted.append(l)
+                if l["target"] in p.required_args:
+                    fail("step %d: link target %s is still in required_args" % (i, l["target"]))
+            elif r["error"] != "ValueError":
+                fail("step %d: link_arguments(%s -> %s) raises %s instead of ValueError" % (i, l["sources"], l["target"], r["error"]))
+            steps.append({"link": r, "state": real_parser_state(p) if r["ok"] else None})
+            continue
+        set_epoch(st.get("epoch", 0))
+        env = st.get("env", {}) if st["entry"] != "env" else {}
+        with EnvPatch(env):
+            res = do_parse(p, st)
+        steps.append({"res": res, "accepted": list(accepted)})
+        if not with_oracle or res[0] != "ok":
+            continue
+        cfg = res[1]
+        tag = "step %d (%s, %d parses before)" % (i, st["entry"], sum(1 for x in steps[:-1] if "res" in x))
+
+        def invariant(c, where):
+            for l in accepted:
+                rc = recompute(l, spec, c)
+                if rc is None:
+                    continue
+                attr = None if fwd_ok(accepted) else link_attribution(l, accepted)
+                if rc[0] == "raises":
+                    fail("%s%s: parse succeeded although compute_fn of %s -> %s raises %s" % (tag, where, l["sources"], l["target"], rc[1]), attr)
+                elif rc[0] == "missing":
+                    fail("%s%s: plain link target %s is not set" % (tag, where, l["target"]), attr)
+                elif not all(same_exact(g, rc[1]) for g in rc[2]):
+                    fail("%s%s: cfg[%s] = %r but compute_fn(%s) = %r on the final sources %r" % (
+                        tag, where, l["target"], rc[2], ", ".join(l["sources"]), rc[1], [c[s0] for s0 in l["sources"]]), attr)
+
+        invariant(cfg, "")
+        try:
+            d = json.loads(p.dump(cfg, format="json"))
+            for l in accepted:
+                if dig(d, l["target"])[0]:
+                    fail("%s: link target %s appears in the json dump" % (tag, l["target"]))
+            cfg2 = p.parse_object(d)
+            invariant(cfg2, ", re-parsed dump")
+            if not same_exact(drop_cfg(cfg2), drop_cfg(cfg)):
+                fail("%s: parse_object(dump(cfg)) != cfg: %r vs %r" % (tag, cfg2, cfg), set_attribution(accepted))
+        except ArgumentError as ex:
+            fail("%s: parse_object(dump(cfg)) raises: %s" % (tag, str(ex)[:160]), set_attribution(accepted))
+    set_epoch(0)
+    return {"parser": p, "steps": steps, "fails": fails, "accepted": accepted}
+
+
+def history_lines(case, real):
+    """driver lines of a history (one `history` op = the model's `runOps` on the whole op sequence) and what the real parser showed"""
+    spec = case["spec"]
+    table = fn_table()
+    p0, _ = build_parser(spec)
+    st0 = real_parser_state(p0)
+    ops, expect = [], []
+    dcfg = [["config", k, v] for k, v in (spec.get("default_config") or {}).items()]
+    for st, rs in zip(case["history"], real["steps"]):
+        if "link" in st:
+            l = st["link"]
+            ops.append({"link": {"sources": l["sources"], "coerce": coerce_flags(l, spec), "target": l["target"],
+                                 "fn": table[l["fn"]][1] if l.get("fn") else None}})
+            expect.append({"r": "ok", "parser": norm_state(rs["state"])} if rs["link"]["ok"] else {"r": rs["link"]["error"]})
+        else:
+            res = rs["res"]
+            typed_out = res[0] == "err" and res[1] == "invalid"
+            ops.append({"parse": wire_inputs(default_feed(spec) + dcfg + st["feed"]), "epoch": st.get("epoch", 0)})
+            if typed_out:
+                expect.append(None)     # a type check decided: parameter of the model
+            else:
+                expect.append({"ok": enc(drop_cfg(res[1]))} if res[0] == "ok" else {"err": res[1]})
+    lines = [{"op": "new", "actions": st0["actions"], "required": st0["required"], "opts": st0["opts"]}, {"op": "history", "ops": ops}]
+    return lines, [("K1-new", norm_state(st0)), ("H-history", expect)]
+
+
 # ---------------------------------------------------------------- correspondence with the model
 def real_actions(parser):
     """the part of parser._actions the link code looks at, as the model's (dest, kind) list"""
@@ -1274,6 +1638,8 @@ def real_actions(parser):
     out = []
     for a in filter_default_actions(parser._actions):
         if isinstance(a, (_ActionConfigLoad, _ActionSubCommands, ActionConfigFile)):
+            continue
+        if a.dest == "print_shtab":     # added to the parser by the first parse_args when shtab is installed; no link looks at it
             continue
         out.append([a.dest, action_kind(a)])
     return out
@@ -1301,6 +1667,8 @@ def real_options(parser):
     out = []
     for o, a in parser._option_string_actions.items():
         if isinstance(a, (_ActionConfigLoad, _ActionSubCommands, ActionConfigFile, _ActionPrintConfig, argparse._HelpAction)):
+            continue
+        if a.dest == "print_shtab":
             continue
         out.append([o, a.dest, action_kind(a)])
     return sorted(out)
@@ -1347,6 +1715,8 @@ def model_lines(case, real):
     """driver lines for one case and, per line, what the real code showed (None = not compared)"""
     from jsonargparse._link_arguments import ActionLink
 
+    if case["entry"] == "history":
+        return history_lines(case, real)
     spec = case["spec"]
     lspec = link_spec(spec)
     lines, expect = [], []
@@ -1370,7 +1740,7 @@ def model_lines(case, real):
     # K2: whole parse of a flat parser
     res = real["res"]
     acc = accepted_links(spec, rep)
-    aliasing = has_nested(acc)      # a write below a shared Namespace object: outside the value-level model
+    aliasing = has_nested(acc) and not fwd_ok(acc)      # a write below a shared Namespace object: outside the value-level model
     typed_out = res[0] == "err" and res[1] == "invalid"    # a type check failed: parameter of the model
     if is_flat(spec) and "feed" in case and not aliasing and not typed_out and not none_source(spec, case, acc):
         lines.append({"op": "parse", "inputs": wire_inputs(default_feed(spec) + case["feed"])})
@@ -1540,6 +1910,18 @@ def compare_line(kind, exp, got):
             and norm_state(node.get("parser") or {"actions": [], "required": [], "links": []}) == exp["node"]["parser"]
     elif kind == "T4-strip":
         ok = ("err" in got) if "err" in exp else ("s" in got and same(got["s"], exp["s"], ordered=True))
+    elif kind == "H-history":
+        outs = got.get("outs") if isinstance(got, dict) else None
+        ok = isinstance(outs, list) and len(outs) == len(exp)
+        for n, (e, g) in enumerate(zip(exp, outs or [])):
+            if e is None:
+                continue
+            if "r" in e:
+                d = compare_line("K1-link", e, g)
+            else:
+                d = compare_line("K2-parse", e, g)
+            if d is not None:
+                return {"line": kind, "step": n, "real": e, "model": g}
     elif kind == "K1-new":
         ok = norm_state(got) == exp
     elif kind == "K1-link":
@@ -1590,6 +1972,29 @@ def shrink_case(case, still_bad, budget=40):
     cur = copy.deepcopy(case)
 
     def candidates(c):
+        if c["entry"] == "history":
+            hist = c["history"]
+            for i in range(len(hist)):
+                if sum(1 for s in hist if "link" not in s) <= 1 and "link" not in hist[i]:
+                    continue
+                d = copy.deepcopy(c)
+                del d["history"][i]
+                yield d
+            if c["spec"].get("default_config"):
+                for k in list(c["spec"]["default_config"]):
+                    d = copy.deepcopy(c)
+                    del d["spec"]["default_config"][k]
+                    yield d
+            for i, s in enumerate(hist):
+                for fld in ("argv", "config", "env"):
+                    for j in (range(len(s[fld])) if fld == "argv" and fld in s else list(s.get(fld) or {}) if fld != "argv" else []):
+                        d = copy.deepcopy(c)
+                        key = s[fld][j][2:].split("=")[0] if fld == "argv" else j if fld == "config" else \
+                            next((k for k in HIST_TYPES if env_name(k) == j), j)
+                        del d["history"][i][fld][j]
+                        d["history"][i]["feed"] = [f for f in s.get("feed", []) if f[1] != key]
+                        yield d
+            return
         ls = link_spec(c["spec"])
         for i in range(len(ls.get("links", []))):
             d = copy.deepcopy(c)
@@ -1696,9 +2101,46 @@ def judge(ctx: Ctx, case, origin):
     return True
 
 
+def describe_history(ctx, case, real):
+    ctx.hist("parser", "history (one parser, several parses)")
+    n_parse, prev_vals, prev_types = 0, None, None
+    for st, rs in zip(case["history"], real["steps"]):
+        if "link" in st:
+            ctx.hist("history_op", "link_arguments after %d parses: %s" % (n_parse, "accepted" if rs["link"]["ok"] else "ValueError"))
+            if rs["link"]["ok"]:
+                ctx.hist("compute_fn", st["link"].get("fn") or "<none>")
+                ctx.hist("n_sources", len(st["link"]["sources"]))
+            continue
+        n_parse += 1
+        ctx.hist("history_op", "parse via " + st["entry"])
+        ctx.hist("outcome", rs["res"][0] if rs["res"][0] == "ok" else "err:" + rs["res"][1])
+        if rs["res"][0] == "ok":
+            cfg = rs["res"][1]
+            vals = {k: cfg[k] for k in HIST_TYPES if k in cfg}
+            if prev_vals is not None:
+                eq_other_type = [k for k in vals if k in prev_vals and vals[k] == prev_vals[k] and not same_exact(vals[k], prev_vals[k])]
+                if eq_other_type:
+                    ctx.hist("history_sources_vs_previous_parse", "some source == previous value but of another type")
+                elif all(same_exact(vals[k], prev_vals.get(k)) for k in vals):
+                    ctx.hist("history_sources_vs_previous_parse", "all sources identical")
+                else:
+                    ctx.hist("history_sources_vs_previous_parse", "different")
+            prev_vals = vals
+    ctx.hist("history_parses", n_parse)
+    if case["spec"].get("default_config") is not None:
+        ctx.hist("history_parser", "with a default config file")
+    if len({st.get("epoch", 0) for st in case["history"] if "link" not in st}) > 1 and \
+            any(st["link"].get("fn") == "epoch" for st in case["history"] if "link" in st):
+        ctx.hist("history_parser", "impure compute function whose outside state changes between parses")
+
+
 def describe(ctx, case, real):
+    if case["entry"] == "history":
+        return describe_history(ctx, case, real)
     spec = case["spec"]
     ls = link_spec(spec)
+    if case.get("nested_order"):
+        ctx.hist("nested_link_set", case["nested_order"])
     ctx.hist("entry", case["entry"])
     ctx.hist("outcome", real["res"][0] if real["res"][0] == "ok" else "err:" + real["res"][1])
     ctx.hist("links_requested", len(ls.get("links", [])))
@@ -1746,7 +2188,11 @@ def run(ctx: Ctx):
                 "and without dict annotation, constant, raising function; wrong requests: chains, double targets, several sources without function, "
                 "unknown keys) + one parse through parse_args (with --cfg), parse_string, parse_path, parse_object or parse_env with values for "
                 "sources and for targets from argv/config/environment/defaults/class spec; non-trivial = the parse succeeds with at least one "
-                "accepted link; distinct by the JSON of the case")
+                "accepted link; distinct by the JSON of the case.  Plus: nested link sets (whole group / class spec as source next to targets "
+                "inside it, whole-first / inner-first / mixed registration order, with and without function or dict coercion) and histories "
+                "(one parser: 2-5 link_arguments calls, some after the first parses, some refused, and 3-6 parses whose Union[int,float] / "
+                "Union[bool,int] / Any sources come from small pools of ==-equal values of different types; functions tagged / tyname / tuple / "
+                "list / identity / epoch (impure); optionally a default config file)")
     ctx.assumptions = [
         "compute functions, type checks of values and the validation of the final configuration are parameters of the model (Env)",
         "the merge of defaults, environment, config and argv into one namespace is an ordered list of assignments (C04/C05 own the merge); "
@@ -1755,19 +2201,26 @@ def run(ctx: Ctx):
         "links applied on instantiation are C16; the is_init_arg_mapping_typehint coercion is outside the model",
         "parser trees: how a string value names a subcommand is a parameter (Names); the links of a parser do not write to its "
         "subcommand dest nor into the sections of its subcommands (link_arguments finds no action for such keys); generated trees have depth 1",
-        "values are compared with == and type(); object identity (an identity link stores the source's Namespace object itself) is outside",
+        "values are compared with == and type() at every depth; object identity (an identity link stores the source's Namespace object itself) "
+        "is outside the model: link sets that are nested and not ordered are left out of K2/K3 and judged by the oracle only",
+        "histories: the world seen by impure compute functions is an index (`epoch`) chosen per parse; the first parse_args adds a "
+        "`--print_shtab` action to the real parser when shtab is installed (ignored: no link looks at it)",
     ]
-    ctx.lean_build(extractors=["links_order"])
+    ctx.lean_build(extractors=["links_order", "links_src"])
 
     from ..lib import corpus as corpus_mod
 
     cases = [c["case"] for c in corpus_mod.load(ctx.prop)]
     n_corpus = len(cases)
-    n_random = ctx.budget(650, 9000) * (2 if ctx.search_boost > 1 else 1)
+    n_random = ctx.budget(520, 6500) * (2 if ctx.search_boost > 1 else 1)
     for _ in range(n_random):
         cases.append(gen_case(ctx.rng, gen_spec(ctx.rng)))
     for _ in range(max(40, n_random // 10)):     # namespace-valued link values onto supplied mappings / other classes
         cases.append(gen_replace_case(ctx.rng))
+    for _ in range(max(60, n_random // 8)):      # whole-namespace sources next to targets inside them, both registration orders
+        cases.append(gen_nested_case(ctx.rng))
+    for _ in range(max(60, n_random // 8)):      # histories on one parser: ==-equal values of other types, impure functions, late links
+        cases.append(gen_history_case(ctx.rng))
     n_generated = len(cases)
     exh = list(exhaustive_link_sets(3, False) if ctx.thorough else exhaustive_link_sets(2, True))
     cases.extend(exh)
@@ -1815,9 +2268,12 @@ def run(ctx: Ctx):
     if ctx.search_boost > 1:
         for i, _ in bad[:20]:
             for _ in range(10):     # neighbours of the disagreeing input: same parser, other inputs
-                extra_cases.append(gen_case(ctx.rng, cases[i]["spec"]))
+                extra_cases.append(gen_history_case(ctx.rng) if cases[i]["entry"] == "history" else gen_case(ctx.rng, cases[i]["spec"]))
         for _ in range(ctx.budget(1500, 6000)):
             extra_cases.append(gen_case(ctx.rng, gen_spec(ctx.rng)))
+        for _ in range(ctx.budget(150, 600)):
+            extra_cases.append(gen_nested_case(ctx.rng))
+            extra_cases.append(gen_history_case(ctx.rng))
     for idx, case in enumerate(cases + extra_cases):
         ctx.count()
         judge(ctx, case, "corpus" if idx < n_corpus else "generated" if idx < n_generated or idx >= len(cases) else "exhaustive")
